@@ -412,7 +412,20 @@ def _choose_op(rng: Rng, d):
         if c < 0.55:
             m = rng.random()
             new = [(l, p, rng.randint(0, 7)) for l, p, _ in a]
-            if m < 0.4:
+            if m < 0.3:
+                return ["setS"] + a_irreg(new)
+            if m < 0.42 and new:
+                # the same sizes position by position under OTHER labels (shifted / one renamed / rotated)
+                how = rng.choice(["shift", "one", "rotate"])
+                labs = [l for l, _, _ in new]
+                if how == "shift":
+                    labs2 = [l + 3 for l in labs]
+                elif how == "one":
+                    labs2 = labs[:-1] + [max(labs) + 1]
+                else:
+                    labs2 = labs[1:] + labs[:1]
+                if labs2 != labs:
+                    return ["setS"] + a_irreg([(l2, p, g) for l2, (_, p, g) in zip(labs2, new)])
                 return ["setS"] + a_irreg(new)
             if m < 0.55 and new:
                 new[0] = (new[0][0], bump(new[0][1], rng), new[0][2])
@@ -1069,6 +1082,17 @@ def _norm_run(case):
     return out
 
 
+def _stand_label_cases():
+    """In every run: standardised points with the right sizes position by position but OTHER labels."""
+    st = START["irreg"]                      # labels 0, 1, 2 with 3, 2, 4 points
+    for labs in ([3, 4, 5], [0, 1, 3], [1, 2, 0], [2, 1, 0], [0, 1, 2]):
+        yield dict(kind="seq", start="standlabels", ops=[st, ["setS"] + a_irreg([(l, p, 0) for l, p in zip(labs, ([3], [2], [4]))])])
+    for labs in ([0, 1], [1, 2], [2, 1], [5, 6]):   # after fdata[1:]: labels 1, 2 with 2, 4 points
+        yield dict(kind="seq", start="standlabels", ops=[st, ["gs", "1", "N", "N"], ["setS"] + a_irreg([(l, p, 0) for l, p in zip(labs, ([2], [4]))])])
+    for labs in ([0, 1, 2], [2, 0, 1], [2, 3, 4]):   # after fdata[[2, 0, 1]]: labels 2, 0, 1 with 4, 3, 2 points
+        yield dict(kind="seq", start="standlabels", ops=[st, ["ga", "2,0,1"], ["setS"] + a_irreg([(l, p, 0) for l, p in zip(labs, ([4], [3], [2]))])])
+
+
 def fnv(s: str) -> int:
     h = 14695981039346656037
     for b in s.encode():
@@ -1135,6 +1159,7 @@ def gen_cases(rng: Rng, tier):
     n = dict(quick=260, thorough=2500)[tier]
     cases = [random_history(rng, rng.choice([5, 8, 12, 20, 40])) for _ in range(n)]
     cases += list(_bad_variant_cases())
+    cases += list(_stand_label_cases())
     cases += list(_xop_cases(rng, 120 if tier == "quick" else 1500))
     cases += list(_norm_cases(rng, 150 if tier == "quick" else 2000))
     if tier == "quick":
